@@ -52,6 +52,10 @@ class MaxMin(Sequential, ABC):
         if a.ndim == 0:
             return grad
 
+        if a.size == 0:
+            # an empty operand (reduced over axes of non-zero length, or over no axis)
+            return np.zeros_like(a.data, dtype=grad.dtype)
+
         if hasattr(axis, "__iter__"):
             axis = tuple(ax % a.ndim for ax in axis)
             axis = None if len(axis) == a.ndim else tuple(sorted(axis))
